@@ -550,10 +550,34 @@ fn op_snap(c: &Value) -> Value {
         }
     }
     if want("delta") {
-        // the same snapshot obtained by applying a delta (from the empty snapshot) that went
-        // through its byte wire form with explicit sizes
+        // the same snapshot obtained by applying a delta that went through its byte wire form with
+        // explicit sizes; the delta is taken from the snapshot built by the call sequence `base`
+        // (more, fewer, the same or other UUID types than the target), or from the empty snapshot
         let none = BTreeMap::new();
-        let empty = Snap::empty();
+        let mut empty = Snap::empty();
+        if c["base"].is_array() {
+            let mut bb = Builder::new();
+            for a in adds_in(&c["base"]) {
+                let _ = vh_common::guarded(CALL_MS, || bb.add_item(a.ty, a.i, &a.d));
+            }
+            let cand = bb.finish();
+            // Delta::create wants the common keys to agree on the item length (its contract)
+            let raw_of = |x: &Snap| -> Option<RawSnap> {
+                let w = snap_ints(x).ok()?;
+                let mut r = RawSnap::empty();
+                r.read_from_ints(&mut libtw2_warn::Ignore, &w).ok()?;
+                Some(r)
+            };
+            let compatible = match (raw_of(&cand), raw_of(&s)) {
+                (Some(ra), Some(rs)) => ra.items().all(|x| rs.item(x.raw_type_id, x.id).map(|d| d.len() == x.data.len()).unwrap_or(true)),
+                _ => false,
+            };
+            e["base"] = c["base"].clone();
+            e["base_used"] = json!(compatible);
+            if compatible {
+                empty = cand;
+            }
+        }
         let mut d = Delta::new();
         let rc = vh_common::guarded(CALL_MS, || d.create(&empty, &s));
         let mut o = json!({"src": "delta", "out": "panic", "warn": [], "obs": {}});
@@ -920,12 +944,28 @@ fn drive_snap(r: &mut StdRng) -> Value {
     let n2 = r.gen_range(0..6);
     let adds2 = rnd_adds(r, n2, &mut upool, false);
     let probe = json!([[[3], 0], [rnd_uuid(r, &mut Vec::new()), 0]]);
+    // the snapshot the delta leg starts from: some of the target's items (values changed), items
+    // of UUID types the target may not have (one integer of data each), or nothing
+    let mut base: Vec<Value> = Vec::new();
+    if r.gen_bool(0.7) {
+        for a in &adds {
+            if r.gen_bool(0.5) && a["d"].as_array().unwrap().len() < 200 {
+                let d: Vec<i32> = ints(&a["d"]).iter().map(|&x| if r.gen_bool(0.5) { x } else { rnd_val(r) }).collect();
+                base.push(json!({"ty": a["ty"], "i": a["i"], "d": d}));
+            }
+        }
+        for _ in 0..r.gen_range(0..4) {
+            let u = rnd_uuid(r, &mut upool);
+            let pos = r.gen_range(0..=base.len());
+            base.insert(pos, json!({"ty": u, "i": r.gen_range(0..3), "d": [rnd_val(r)]}));
+        }
+    }
     if n > 40 {
         // large snapshots: one copy (alternating wire form) to keep the events small
         let which = *["ints", "bytes", "delta"].get(r.gen_range(0..3)).unwrap();
-        return json!({"op": "snap", "adds": adds, "adds2": adds2, "probe": probe, "copies": [which]});
+        return json!({"op": "snap", "adds": adds, "adds2": adds2, "probe": probe, "copies": [which], "base": base});
     }
-    json!({"op": "snap", "adds": adds, "adds2": adds2, "probe": probe})
+    json!({"op": "snap", "adds": adds, "adds2": adds2, "probe": probe, "base": base})
 }
 fn enc_ints(v: &[i32]) -> Vec<u8> {
     let mut out: Vec<u8> = Vec::with_capacity(5 * v.len() + 8);
